@@ -532,6 +532,39 @@ pub fn c05<T: Full>(g: &mut Gen, b: &Budget, out: &mut Sink) {
             };
             out.oracle("C05", !o2.starts_with("ok"), &case, &format!("proper prefix accepted by deserialize: {}", o2));
         }
+        // prefixes of encodings too large to build: the element count of a top-level sequence or string
+        // raised to N > n while only n elements follow is a proper prefix of the encoding of some
+        // N-element value, so it must be rejected - also when N * size_of::<T>() wraps around 2^32
+        if (ty.starts_with("(seq ") || ty.starts_with("(str ")) && !ty.starts_with("(seq indexSet") && bs.len() >= 4 {
+            let n = u32::from_le_bytes([bs[0], bs[1], bs[2], bs[3]]) as u64;
+            let mut claims: Vec<u64> = vec![n + 1, 2 * n + 1, 0xffff_ffff];
+            for sh in [28u32, 29, 30, 31] {
+                claims.push(n + (1u64 << sh));
+                claims.push(n + (1u64 << sh) + (1u64 << 31));
+                claims.push(n + 3 * (1u64 << sh));
+            }
+            for big in claims {
+                if big <= n || big > 0xffff_ffff {
+                    continue;
+                }
+                let mut x = bs.clone();
+                x[..4].copy_from_slice(&(big as u32).to_le_bytes());
+                let case = format!("fs {} {} {}", MODE, ty, hex(&x));
+                let (o, _) = fs_obs::<T>(&x);
+                out.case(&case, &o);
+                out.oracle("C05", !o.starts_with("ok"), &case,
+                           &format!("a proper prefix of a {}-element encoding ({} elements present) was accepted: {}", big, n, o));
+                let o2 = match conv(guarded(|| {
+                    let mut sl = &x[..];
+                    T::deserialize(&mut sl).map(|_| ())
+                })) {
+                    Ok(Ok(())) => "ok".to_string(),
+                    Ok(Err(e)) => e,
+                    Err(pn) => format!("panic {}", pn),
+                };
+                out.oracle("C05", !o2.starts_with("ok"), &case, &format!("the same prefix accepted by deserialize: {}", o2));
+            }
+        }
     }
 }
 
